@@ -1313,6 +1313,24 @@ func ruleRegister(r *Report) {
 			ok = di[0].same(c1.Args[2], fn.Params[1]) && dc[0].same(c2.Args[1], fn.Params[1])
 		}
 		h.Check(ok, name, r.P.Pos(fn.Pos()), "removed from the target's list and from the registry", "dropping does not remove the computed column from both its target's list and the registry")
+		if ok {
+			// DeleteIndex finds the computed column through the registry (Load of its own name); where it does,
+			// the registry entry has to be still there when it runs: detach first, unregister second.
+			byName := false
+			if callee := di[0].Inner.(ssa.CallInstruction).Common().StaticCallee(); callee != nil && len(callee.Params) > 2 {
+				for _, l := range callsToDeep(callee, false, "(*column.columns).Load") {
+					lc, _, _ := callCommon(l.Inner)
+					if l.same(lc.Args[1], callee.Params[2]) {
+						byName = true
+					}
+				}
+			}
+			a, b := di[0].Inner, dc[0].Inner
+			if a.Parent() != b.Parent() {
+				a, b = di[0].Site, dc[0].Site
+			}
+			h.Check(!byName || (a.Parent() == b.Parent() && precedes(a, b)), name+"/order", r.P.Pos(dc[0].Inner.Pos()), "detached from the target's list while its name still resolves", "the name is unregistered before DeleteIndex, which finds the computed column through that name: nothing is detached and the dropped trigger or index keeps receiving the target column's updates")
+		}
 	}
 }
 
@@ -1390,6 +1408,16 @@ func ruleBackfill(r *Report) {
 		}
 		// the index applied is the one created here, the column snapshotted is the target
 		h.Check(ok, name, r.P.InstrPos(snaps[0]), "for block in [0, chunks()): snapshot ≺ seek ≺ apply", "back-fill of the new index is incomplete: "+why)
+		// the index is in the registry before the first block is read: a commit that lands on a block the
+		// loop has already passed finds the index registered and maintains it itself
+		stores := callsToDeep(fn, false, "(*column.columns).Store")
+		first := len(stores) > 0
+		for _, st := range stores {
+			if !precedes(st.Site, snapsD[0].Site) {
+				first = false
+			}
+		}
+		h.Check(first, name+"/registered-first", r.P.InstrPos(snaps[0]), "registered in the registry before the back-fill loop starts", "the new index is registered after (part of) the back-fill: a commit or delete that lands on a block the loop has already passed does not find the index and the loop never revisits the block, so the index stays wrong after creation returns")
 	}
 }
 
@@ -1647,8 +1675,17 @@ func ruleBlockLoops(r *Report) {
 	bs, _ := r.P.ConstVal("column", "bitmapShift")
 	var shift int64
 	fmt.Sscanf(bs, "%d", &shift)
-	for _, name := range []string{"(*column.Txn).rangeRead", "(*column.Txn).rangeReadPair", "(*column.Txn).WithUnion"} {
+	names := []string{"(*column.Txn).rangeRead", "(*column.Txn).rangeReadPair", "(*column.Txn).WithUnion"}
+	for _, n := range pairLoopNames(r) {
+		if n != "(*column.Txn).rangeReadPair" {
+			names = append(names, n) // a sibling of rangeReadPair found by shape
+		}
+	}
+	for _, name := range names {
 		fn := r.Anchor(name)
+		if fn == nil {
+			fn = r.P.Fn(name)
+		}
 		if fn == nil {
 			continue
 		}
@@ -1740,7 +1777,7 @@ func ruleBlockLoops(r *Report) {
 		if loops == 0 && name != "(*column.Txn).rangeRead" {
 			// no loop of its own: the function delegates the iteration to rangeRead / rangeReadPair,
 			// whose loop is checked under its own name
-			ok = len(callsToDeep(fn, false, "(*column.Txn).rangeRead", "(*column.Txn).rangeReadPair")) > 0
+			ok = len(callsToDeep(fn, false, append([]string{"(*column.Txn).rangeRead", "(*column.Txn).rangeReadPair"}, pairLoopNames(r)...)...)) > 0
 		}
 		h.Check(ok, name, r.P.Pos(fn.Pos()), "for block := 0; block <= len(index)>>bitmapShift; block++", "the per-block loop does not visit every block of the selection from 0 up to and including the last (partial) one: rows of the skipped block are neither filtered nor iterated")
 	}
